@@ -38,7 +38,7 @@ CHECKS = {
    note="Crash model: every completed filesystem call is durable, nothing else is (process crash, no page-cache loss); torn calls are C16."),
  "C08": dict(cat="fault_enumeration", ref="3 (C08)", technique="single-fault enumeration over the filesystem call stream of generated workloads (transient and sticky), oracle = acknowledged-writes model with all-or-nothing maybe-set",
    text="Every filesystem call of a generated workload (after the initial open) is failed once (transient) and persistently (sticky); during the run each read must return an allowed value or an error, writes that returned Ok are in the model, failed writes form an all-or-nothing maybe-set, no call may hang; after disarming, close/reopen must succeed and the contents must equal the acknowledged writes plus all-or-nothing of the failed ones. Quick enumerates all positions for runs <= 600 calls.",
-   note="Failures have no side effect on the file (partial writes are C16). Cases whose divergence coincides with the iterator-step error-swallowing counter are attributed to the open known finding iter-step-error-swallowed (KNOWN_FINDINGS.txt) and counted under excluded_known."),
+   note="Failures have no side effect on the file (partial writes are C16). Scans are judged through the iterator status channel (take_error): a scan that stops early with an error is an error report, one that stops early without is a violation."),
  "C12": dict(cat="exploration", ref="5 (C12)", technique="round-trip property testing of LogWriter/LogReader with an enumerated block-boundary family",
    text="Round-trip through the real LogWriter/LogReader over generated record-length lists, writer re-open points, writer death between fragments and final truncation at any byte, with an independent model of the block layout; the block-boundary arithmetic (offsets within 20 bytes of a boundary x lengths within 20 bytes of the remaining room) is enumerated completely in the thorough tier.",
    note="Reached through wrappers in src/verif.rs; checksum corruption is C15's subject, not C12's."),
@@ -50,7 +50,7 @@ CHECKS = {
    note="False positives are allowed by the property and not measured."),
  "C15": dict(cat="fault_enumeration", ref="3 (C15)", technique="corruption enumeration (bit flips / byte replacement at enumerated offsets of every persistent file, table truncations) against a written-values oracle",
    text="Small multi-level images (tiny blocks, compressible and raw blocks, multi-record manifest, live WAL with multi-key batches) are built by generated workloads; every persistent file is damaged at enumerated offsets (quick: 2 mutations per offset of CURRENT/manifest/WAL/table tails, every 3rd offset elsewhere; thorough: 11 mutations at every offset and every table truncation) and the copy is opened with a fresh cache: open fails, or every get/scan returns what was written or an error; WAL damage may skip records atomically. Invented values are always violations.",
-   note="Two open known findings exclude (and count) stale/missing results: iterator-step error swallowing (counter signature) and unchecksummed manifest fragment header bytes (offset signature). Panics on damaged input are counted as detected-ungraceful, not as violations. Corruption is applied while the database is closed."),
+   note="One open known finding excludes (and counts) stale/missing results: unchecksummed manifest fragment header bytes (signature: the damaged offset is byte 4-6 of a manifest fragment header). Panics on damaged input are counted as detected-ungraceful, not as violations. Corruption is applied while the database is closed."),
  "C16": dict(cat="fault_enumeration", ref="3 (C16)", technique="torn-write enumeration over journalled generated workloads (append cut at 1, n/2, n-1 bytes; recover, write, reopen)",
    text="Every append to a WAL, manifest or CURRENT temp file of a generated workload is cut to 1, n/2, n-1 bytes (thorough: every length for n<=64 plus the header boundary); the image must recover to acknowledged(+in-flight) state with reuse_log_files on and off, accept 1-5 further writes (incl. a 40 kB one) and still contain them after a clean reopen with either setting.",
    note="Crash model as C02 plus one partially applied append."),
